@@ -456,7 +456,7 @@ func C02(c *vh.Ctx) {
 		c.Count("a_patterns", int64(len(pats)))
 		c.Count("a_messages", int64(len(msgs)))
 	}
-	c.Rule("(a) every (pattern, message) over the two-letter alphabet (keys {a,b}, atoms {\"a\",\"b\",1}, variables ?x ?y ? ??o, property variables ?x ?) up to the node bounds, messages without duplicate scalar array members, patterns without duplicate scalar array members: the reference backtracking enumerator's embeddings must all be returned, and for plain patterns the result set must equal them; cases where a repeated variable would take a structured value are skipped (side condition). (b) planting: every pattern up to a larger bound x every assignment of values to its variables (side conditions enforced) x every message = instantiated pattern plus up to k insertions (extra keys in any map; extra elements in any array incl. near-copies of structured siblings, front and back) x pre-binding none/each single variable: the planted assignment must be returned. Odometer, duplicate-free; non-trivial = at least one embedding exists.")
+	c.Rule("(a) every (pattern, message) over the two-letter alphabet (keys {a,b}, atoms {\"a\",\"b\",1}, variables ?x ?y ? ??o, property variables ?x ?) up to the node bounds, messages without duplicate scalar array members, patterns without duplicate scalar array members: the reference backtracking enumerator's embeddings must all be returned, and for plain patterns the result set must equal them; cases where a repeated variable would take a structured value are skipped (side condition). (b) planting: every pattern up to a larger bound x every assignment of values to its variables (side conditions enforced) x every message = instantiated pattern plus up to k insertions (extra keys in any map; extra elements in any array incl. near-copies of structured siblings, front and back) x pre-binding none/each single variable: the planted assignment must be returned. (c) wide arrays: 2-5 structured pattern elements with distinct variables (with/without an array variable) against as many or one more ambiguous message elements: all injections must be returned. Odometer, duplicate-free; non-trivial = at least one embedding exists.")
 	for i, p := range pats {
 		if !c.Mine(uint64(i)) {
 			continue
@@ -470,6 +470,13 @@ func C02(c *vh.Ctx) {
 		for _, m := range msgs {
 			completeOne(c, c02Case{P: p, M: m, B: M{}}, false)
 			c.Count("a_evaluations", 1)
+		}
+	}
+	// (c) wide arrays: every injection of 2-5 structured pattern elements into the message elements must be returned
+	for i, cs := range wideArrayCases() {
+		if c.Mine(uint64(i)) {
+			completeOne(c, c02Case{P: cs.P, M: cs.M, B: cs.B}, false)
+			c.Count("c_evaluations", 1)
 		}
 	}
 	// (b)
